@@ -358,8 +358,11 @@ def setParams (pos : Pos) (params : List String) : CM Unit := do
     if t.numParams > 0 then cerr pos "parameters already defined"
     else if t.disableParams then cerr pos "parameters disabled"
     else do
-      modHead fun t => { t with numParams := params.length }
+      -- Go stores `st.numParams = len(params)` before the loop and sets it back to the number of
+      -- parameters defined when the loop fails; nothing in the loop reads it, so the store is
+      -- made here, after the loop (same final state on every path)
       setParamsLoop pos params 0
+      modHead fun t => { t with numParams := params.length }
 
 def rootDisabled : List Table → List String
   | [] => []
@@ -791,9 +794,11 @@ def compileAssign (pos : Pos) (lhs : List Expr) (nrhs : Nat) (rhsAct lhs0Act def
 /-- `compileFuncLit` around the body: `Fork(false)`, `SetParams`, the forked compiler, `Bytecode()`;
     returns the compiled function and the function's symbol table -/
 def withFn (pos : Pos) (variadic : Bool) (params : List String) (body : CM Unit) : CM (CFn × Table) := do
+  -- (the forked compiler is entered first: in Go the two compilers have separate instruction
+  -- buffers, and `Fork` / `SetParams` touch the symbol table only)
+  let outer ← enterFn variadic
   forkTable false
   setParams pos params
-  let outer ← enterFn variadic
   body
   let fn ← finishFn
   let ft ← leaveFn outer
